@@ -269,14 +269,50 @@ theorem declared_lookup {W : World} (hW : W.Good) {b : Bound} (hb : b ∈ W.leve
   have := hW.iprop_eq b0 hb0
   rwa [hip0.1, hip0.2] at this
 
-theorem typed_ok {W : World} {s : SSt} {o : Nat} {i p : Str} {ip : PropDef} {v : PyVal}
+theorem typed_ok {W : World} {s : SSt} {o : Nat} {i p : Str} {ip : PropDef} {v : PVal}
     (hl : lookupProp W.ifaces i p = some ip) (hv : s.val o i p = some v)
     (ht : HasTypeSig ip.sig v = true) :
-    ∃ t sg, gaT W s o i p = some t ∧ encodeVariant t = some (sg, v) ∧ (IsBasic ip.sig = true → sg = ip.sig) := by
+    ∃ t sg, gaT W s o i p = some t ∧ encodeVariant t = some (sg, v.plain) ∧
+      (IsBasic ip.sig = true → sg = ip.sig) := by
   obtain ⟨sg, e, hb⟩ := getReply_of_hasType ht
   unfold getReply at e
   obtain ⟨t, ht1, ht2⟩ := Option.bind_eq_some_iff.mp e
   exact ⟨t, sg, by simp [gaT, hl, hv, ht1], ht2, hb⟩
+
+/-- Every readable name the loop visited is in the dictionary when the loop succeeds. -/
+theorem foldG_visited {R : Str → Bool} {T : Str → Option Typed} :
+    ∀ (ps : List Str) (r0 r' : List (Str × Typed)), ps.foldlM (stepG R T) r0 = some r' →
+      (keys r0).Nodup → ∀ p ∈ ps, R p = true → (dget r' p).isSome = true := by
+  intro ps
+  induction ps with
+  | nil => intro r0 r' _ _ p hp; simp at hp
+  | cons q qs ih =>
+    intro r0 r' h hn p hp hR
+    rw [List.foldlM_cons] at h
+    cases h1 : stepG R T r0 q with
+    | none => simp [h1] at h
+    | some r1 =>
+      simp only [h1, bind, Option.bind_some] at h
+      obtain ⟨hn1, _⟩ := stepG_spec h1 hn
+      rcases List.mem_cons.mp hp with rfl | hp
+      · have hq : (dget r1 p).isSome = true := by
+          unfold stepG at h1
+          by_cases a : (dget r0 p).isSome = true
+          · simp only [a, if_true, Option.some.injEq] at h1; subst h1; exact a
+          · simp only [a, hR] at h1
+            cases ht : T p with
+            | none => simp [ht] at h1
+            | some t =>
+              simp [ht] at h1
+              subst h1
+              rw [dget_dset_self]; rfl
+        obtain ⟨_, e'⟩ := foldG_some qs r1 r' h hn1
+        rw [e' p]
+        unfold expectG
+        cases hd : dget r1 p with
+        | none => simp [hd] at hq
+        | some t => rfl
+      · exact ih r1 r' h hn1 p hp hR
 
 /-! ### GetAll -/
 
@@ -288,7 +324,6 @@ theorem opGetAll_allowed {cfg : Cfg} {W : World} {st : St} {s : SSt} (hW : W.Goo
     simp only [sdeclOf, List.all_eq_true, decide_eq_true_eq, List.mem_map, not_exists, not_and]
   by_cases hin : i ∈ (sdeclOf W).ifaces
   · rw [if_pos hin]
-    intro H
     have hnot : ¬ (cfg.getAllUnknownErr = true ∧ i ≠ [] ∧ (W.ifaces.all fun f => decide (f.name ≠ i)) = true) :=
       fun h => (hk.mp h.2.2) hin
     -- the loop, per property name
@@ -308,100 +343,130 @@ theorem opGetAll_allowed {cfg : Cfg} {W : World} {st : St} {s : SSt} (hW : W.Goo
       obtain ⟨e, he, rfl⟩ := List.mem_map.mp hp
       obtain ⟨a, b, c⟩ := namedEntries_mem hW hc.allLevels he
       exact declared_lookup hW c b a
-    -- a readable declared property is typed successfully (hypothesis H)
-    have good : ∀ p b0, (W.levels.flatten.find? fun b => b.iface = i ∧ b.pname = p) = some b0 →
+    -- a declared property is visited
+    have visited : ∀ p b0, (W.levels.flatten.find? fun b => b.iface = i ∧ b.pname = p) = some b0 → p ∈ ps := by
+      intro p b0 hf
+      have hb0 := List.mem_of_find?_eq_some hf
+      have hip0 : b0.iface = i ∧ b0.pname = p := by simpa using List.find?_some hf
+      obtain ⟨b', hb'⟩ := namedEntries_has hW hc.allLevels hb0
+      rw [hip0.1, hip0.2] at hb'
+      exact List.mem_map.mpr ⟨(p, b'), hb', rfl⟩
+    -- the premise of completeness makes every readable declared property typable
+    have good : (∀ sp ∈ (sdeclOf W).props, sp.iface = i → sp.readable = true →
+          ∃ v, s.val o i sp.name = some v ∧ HasTypeSig sp.sig v = true) →
+        ∀ p b0, (W.levels.flatten.find? fun b => b.iface = i ∧ b.pname = p) = some b0 →
         lookupProp W.ifaces i p = some b0.iprop → gaR W i p = true →
-        ∃ v t sg, s.val o i p = some v ∧ gaT W s o i p = some t ∧ encodeVariant t = some (sg, v) ∧
-          (IsBasic b0.iprop.sig = true → sg = b0.iprop.sig) := by
-      intro p b0 hf hl hr
+        ∃ t sg w, gaT W s o i p = some t ∧ encodeVariant t = some (sg, w) := by
+      intro H p b0 hf hl hr
       have hb0 := List.mem_of_find?_eq_some hf
       have hip0 : b0.iface = i ∧ b0.pname = p := by simpa using List.find?_some hf
       have hr' : decide (b0.iprop.access ≠ .write) = true := by simpa [gaR, hl] using hr
       obtain ⟨v, hv, ht⟩ := H (toS b0) (List.mem_map.mpr ⟨b0, hb0, rfl⟩) hip0.1 hr'
       simp only [toS] at hv ht
       rw [hip0.2] at hv
-      obtain ⟨t, sg, h1, h2, h3⟩ := typed_ok hl hv ht
-      exact ⟨v, t, sg, hv, h1, h2, h3⟩
-    -- the loop does not raise
+      obtain ⟨t, sg, h1, h2, _⟩ := typed_ok hl hv ht
+      exact ⟨t, sg, _, h1, h2⟩
     cases hg : getAllProperties cfg W st o i with
     | none =>
+      have hout : opGetAll cfg W st o i = .err .value := by
+        unfold opGetAll; rw [if_neg hnot, hg]
+      rw [hout]
+      refine ⟨Or.inl ⟨_, rfl⟩, (fun l hl => by simp at hl), fun H => ?_⟩
       exfalso
       rw [hfold] at hg
       obtain ⟨p, hp, hr, ht⟩ := foldG_none ps [] hg
       obtain ⟨b0, hf, hl, _⟩ := visit p hp
-      obtain ⟨v, t, sg, _, h1, _⟩ := good p b0 hf hl hr
+      obtain ⟨t, sg, w, h1, _⟩ := good H p b0 hf hl hr
       rw [ht] at h1; cases h1
     | some r' =>
+      have hg0 := hg
       rw [hfold] at hg
       obtain ⟨hnd, hget⟩ := foldG_some ps [] r' hg (by simp [keys])
       have hget' : ∀ p, dget r' p = if p ∈ ps ∧ gaR W i p = true then gaT W s o i p else none := by
         intro p; rw [hget p]; simp [expectG, dget]
-      -- every entry of the dictionary marshals
-      have entry : ∀ e ∈ r', ∃ b0 v sg,
-          (W.levels.flatten.find? fun b => b.iface = i ∧ b.pname = e.1) = some b0 ∧
-          s.val o i e.1 = some v ∧ encodeVariant e.2 = some (sg, v) ∧
-          (IsBasic b0.iprop.sig = true → sg = b0.iprop.sig) := by
+      have entryT : ∀ e ∈ r', e.1 ∈ ps ∧ gaR W i e.1 = true ∧ gaT W s o i e.1 = some e.2 := by
         intro e he
         have hd := dget_of_mem_nodup (k := e.1) (v := e.2) hnd he
         rw [hget' e.1] at hd
         by_cases hc' : e.1 ∈ ps ∧ gaR W i e.1 = true
-        · rw [if_pos hc'] at hd
-          obtain ⟨b0, hf, hl, _⟩ := visit e.1 hc'.1
-          obtain ⟨v, t, sg, hv, h1, h2, h3⟩ := good e.1 b0 hf hl hc'.2
-          rw [hd] at h1; cases h1
-          exact ⟨b0, v, sg, hf, hv, h2, h3⟩
+        · rw [if_pos hc'] at hd; exact ⟨hc'.1, hc'.2, hd⟩
         · rw [if_neg hc'] at hd; cases hd
-      let f : Str × Typed → Option (Str × Str × PyVal) :=
+      let f : Str × Typed → Option (Str × Str × PVal) :=
         fun e => (encodeVariant e.2).map fun sw => (e.1, sw.1, sw.2)
-      obtain ⟨l, hl⟩ := mapM_some_of_forall (f := f) (l := r') (fun e he => by
-        obtain ⟨b0, v, sg, _, _, h2, _⟩ := entry e he
-        exact ⟨(e.1, sg, v), by simp [f, h2]⟩)
-      have hout : opGetAll cfg W st o i = .retD l := by
-        unfold opGetAll
-        rw [if_neg hnot, hfold, hg]
-        simp only
-        rw [show (List.mapM (fun e => Option.map (fun sw => (e.1, sw.1, sw.2)) (encodeVariant e.2)) r') =
-          some l from hl]
-      have hkeys : l.map (·.1) = keys r' :=
-        mapM_map_eq (f := f) (g := Prod.fst) (g' := fun y => y.1) (fun x y hxy => by
-          simp only [f, Option.map_eq_some_iff] at hxy
-          obtain ⟨sw, _, rfl⟩ := hxy
-          rfl) hl
-      refine ⟨l, by rw [hout], ?_, ?_, ?_⟩
-      · rw [hkeys]; exact hnd
-      · intro p
-        rw [hkeys, ← dget_isSome_iff, hget' p, sdecl_find]
-        constructor
-        · intro h
-          by_cases hc' : p ∈ ps ∧ gaR W i p = true
-          · obtain ⟨b0, hf, hl0, _⟩ := visit p hc'.1
-            refine ⟨toS b0, by rw [hf]; rfl, ?_⟩
-            simpa [gaR, hl0, toS] using hc'.2
-          · rw [if_neg hc'] at h; cases h
-        · rintro ⟨sp, hsp, hr⟩
-          cases hf : W.levels.flatten.find? fun b => b.iface = i ∧ b.pname = p with
-          | none => rw [hf] at hsp; cases hsp
-          | some b0 =>
-            rw [hf] at hsp
-            simp only [Option.map_some, Option.some.injEq] at hsp
-            subst hsp
-            have hb0 := List.mem_of_find?_eq_some hf
-            have hip0 : b0.iface = i ∧ b0.pname = p := by simpa using List.find?_some hf
-            obtain ⟨b', hb'⟩ := namedEntries_has hW hc.allLevels hb0
-            rw [hip0.1, hip0.2] at hb'
-            have hp : p ∈ ps := List.mem_map.mpr ⟨(p, b'), hb', rfl⟩
-            obtain ⟨b1, hf1, hl1, _⟩ := visit p hp
-            rw [hf] at hf1; cases hf1
-            have hR : gaR W i p = true := by simpa [gaR, hl1, toS] using hr
-            obtain ⟨v, t, sg, _, h1, _⟩ := good p b0 hf hl1 hR
-            rw [if_pos ⟨hp, hR⟩, h1]; rfl
-      · intro p sg w hm
-        obtain ⟨e, he, hfe⟩ := mem_of_mapM_some hl (p, sg, w) hm
-        obtain ⟨b0, v, sg', hf, hv, h2, h3⟩ := entry e he
-        simp only [f, h2, Option.map_some, Option.some.injEq, Prod.mk.injEq] at hfe
-        obtain ⟨rfl, rfl, rfl⟩ := hfe
-        refine ⟨toS b0, by rw [sdecl_find, hf]; rfl, hv, ?_⟩
-        simpa [toS] using h3
+      cases hm : r'.mapM f with
+      | none =>
+        have hout : opGetAll cfg W st o i = .err .value := by
+          unfold opGetAll
+          rw [if_neg hnot, hg0]
+          simp only
+          rw [show (List.mapM (fun e => Option.map (fun sw => (e.1, sw.1, sw.2)) (encodeVariant e.2)) r') =
+            none from hm]
+        rw [hout]
+        refine ⟨Or.inl ⟨_, rfl⟩, (fun l hl => by simp at hl), fun H => ?_⟩
+        exfalso
+        obtain ⟨l, hl⟩ := mapM_some_of_forall (f := f) (l := r') (fun e he => by
+          obtain ⟨hp, hr, ht⟩ := entryT e he
+          obtain ⟨b0, hf, hl0, _⟩ := visit e.1 hp
+          obtain ⟨t, sg, w, h1, h2⟩ := good H e.1 b0 hf hl0 hr
+          rw [ht] at h1; cases h1
+          exact ⟨(e.1, sg, w), by simp [f, h2]⟩)
+        rw [hl] at hm; cases hm
+      | some l =>
+        have hout : opGetAll cfg W st o i = .retD l := by
+          unfold opGetAll
+          rw [if_neg hnot, hg0]
+          simp only
+          rw [show (List.mapM (fun e => Option.map (fun sw => (e.1, sw.1, sw.2)) (encodeVariant e.2)) r') =
+            some l from hm]
+        have hkeys : l.map (·.1) = keys r' :=
+          mapM_map_eq (f := f) (g := Prod.fst) (g' := fun y => y.1) (fun x y hxy => by
+            simp only [f, Option.map_eq_some_iff] at hxy
+            obtain ⟨sw, _, rfl⟩ := hxy
+            rfl) hm
+        rw [hout]
+        refine ⟨Or.inr ⟨l, rfl⟩, ?_, fun _ => ⟨l, rfl⟩⟩
+        intro l' hl'
+        simp only [List.cons.injEq, Out.retD.injEq, and_true] at hl'
+        subst hl'
+        refine ⟨?_, ?_, ?_⟩
+        · rw [hkeys]; exact hnd
+        · intro p
+          rw [hkeys, ← dget_isSome_iff, sdecl_find]
+          constructor
+          · intro h
+            rw [hget' p] at h
+            by_cases hc' : p ∈ ps ∧ gaR W i p = true
+            · obtain ⟨b0, hf, hl0, _⟩ := visit p hc'.1
+              refine ⟨toS b0, by rw [hf]; rfl, ?_⟩
+              simpa [gaR, hl0, toS] using hc'.2
+            · rw [if_neg hc'] at h; cases h
+          · rintro ⟨sp, hsp, hr⟩
+            cases hf : W.levels.flatten.find? fun b => b.iface = i ∧ b.pname = p with
+            | none => rw [hf] at hsp; cases hsp
+            | some b0 =>
+              rw [hf] at hsp
+              simp only [Option.map_some, Option.some.injEq] at hsp
+              subst hsp
+              have hp : p ∈ ps := visited p b0 hf
+              obtain ⟨b1, hf1, hl1, _⟩ := visit p hp
+              rw [hf] at hf1; cases hf1
+              have hR : gaR W i p = true := by simpa [gaR, hl1, toS] using hr
+              exact foldG_visited ps [] r' hg (by simp [keys]) p hp hR
+        · intro p sg w hmem
+          obtain ⟨e, he, hfe⟩ := mem_of_mapM_some hm (p, sg, w) hmem
+          obtain ⟨hp, hr, ht⟩ := entryT e he
+          obtain ⟨b0, hf, hl0, _⟩ := visit e.1 hp
+          simp only [f, Option.map_eq_some_iff] at hfe
+          obtain ⟨sw, henc, hsw⟩ := hfe
+          simp only [Prod.mk.injEq] at hsw
+          obtain ⟨rfl, rfl, rfl⟩ := hsw
+          refine ⟨toS b0, by rw [sdecl_find, hf]; rfl, ?_⟩
+          intro v hv hty
+          simp only [toS] at hty
+          obtain ⟨t', sg', h1, h2, h3⟩ := typed_ok hl0 hv hty
+          rw [ht] at h1; cases h1
+          rw [h2] at henc; cases henc
+          exact ⟨rfl, by simpa [toS] using h3⟩
   · rw [if_neg hin]
     refine ⟨.unknownIface, ?_⟩
     unfold opGetAll
